@@ -1106,6 +1106,11 @@ func collectAliasSlots(m protoreflect.Message, out *[]aliasSlot, depth int) {
 		if f.Message() == nil || f.Message().FullName() == "google.protobuf.Any" || f.IsMap() {
 			return true
 		}
+		if f.JSONName() == "id" {
+			// an element id is a bare string in JSON: a String that carries extensions or an id of
+			// its own must not end up there, nor the id's String in a place that expects a full element
+			return true
+		}
 		if f.IsList() {
 			l := v.List()
 			for i := 0; i < l.Len(); i++ {
